@@ -91,11 +91,66 @@ theorem inv_congr {s s' : State} (h : Inv s) (hr : s'.roster = s.roster) (he : s
     (hu : s'.used = s.used) (hn : s'.nextTask = s.nextTask) (hc : s'.creating = s.creating) : Inv s' :=
   inv_of_roster_subset h (by rw [hr]; exact List.Sublist.refl _) he hu hn hc
 
-theorem inv_doKill (s : State) (tk : List Task) (h : Inv s) : Inv (doKill s tk) := by
-  apply inv_of_roster_subset h <;> simp [doKill]
+/-- The same for a roster that is rearranged: every entry is an old one and ids stay unique. -/
+theorem inv_of_roster_mem {s s' : State} (h : Inv s)
+    (hr : ∀ t ∈ s'.roster, t ∈ s.roster) (hnd : (s'.roster.map (·.id)).Nodup) (he : s'.envs = s.envs) (hu : s'.used = s.used)
+    (hn : s'.nextTask = s.nextTask) (hc : s'.creating = s.creating) : Inv s' := by
+  constructor
+  · intro t ht; exact h.ids t (hr t ht)
+  · intro t ht; rw [hn]; exact h.fresh t (hr t ht)
+  · exact hnd
+  · rw [he, hn]; exact h.envFresh
+  · rw [he, hu]; exact h.envUsed
+  · rw [he]; exact h.envNodup
+  · rw [he]; exact h.hooksSub
+  · rw [he]; exact h.disjoint
+  · rw [he]; intro E hE ht t htr; exact h.owned E hE ht t (hr t htr)
+  · rw [hc, hu]; exact h.pendUsed
+  · rw [hc]; exact h.pendNodup
+  · rw [hc, he]; exact h.pendFresh
+  · rw [hc, he]; exact h.pendListed
+  · rw [hc]; exact h.pendClaims
 
-theorem inv_cleanup (s : State) (h : Inv s) : Inv (cleanup s) := inv_doKill s _ h
-theorem inv_killTasks (s : State) (ids : List TaskId) (h : Inv s) : Inv (killTasks s ids) := inv_doKill s _ h
+/-- The roster `doKill` leaves: what was not in the list, then the tasks whose KILL call failed. -/
+theorem doKill_roster (s : State) (tk : List Task) :
+    (doKill s tk).roster = s.roster.filter (fun t => decide (t.id ∉ tk.map (·.id)))
+      ++ (tk.filter (·.active)).filter (fun t => decide (t.id ∈ s.refusing)) := rfl
+
+theorem mem_doKill_roster {s : State} {tk : List Task} (hsub : List.Sublist tk s.roster) {t : Task}
+    (ht : t ∈ (doKill s tk).roster) : t ∈ s.roster := by
+  rw [doKill_roster] at ht
+  rcases List.mem_append.mp ht with h | h
+  · exact (List.mem_filter.mp h).1
+  · exact hsub.subset (List.mem_filter.mp (List.mem_filter.mp h).1).1
+
+/-- A task put back by `doKill` is one of the list, ACTIVE, and its KILL call failed. -/
+theorem mem_doKill_back {s : State} {tk : List Task} {t : Task}
+    (ht : t ∈ (tk.filter (·.active)).filter (fun t => decide (t.id ∈ s.refusing))) :
+    t ∈ tk ∧ t.active = true ∧ t.id ∈ s.refusing := by
+  obtain ⟨h1, h2⟩ := List.mem_filter.mp ht
+  obtain ⟨h3, h4⟩ := List.mem_filter.mp h1
+  exact ⟨h3, h4, by simpa using h2⟩
+
+theorem doKill_roster_nodup (s : State) (tk : List Task) (hsub : List.Sublist tk s.roster)
+    (hnd : (s.roster.map (·.id)).Nodup) : ((doKill s tk).roster.map (·.id)).Nodup := by
+  rw [doKill_roster, List.map_append]
+  refine List.nodup_append.mpr ⟨?_, ?_, ?_⟩
+  · exact hnd.sublist (List.Sublist.map _ (List.filter_sublist))
+  · exact hnd.sublist (List.Sublist.map _ ((List.filter_sublist).trans ((List.filter_sublist).trans hsub)))
+  · intro a ha b hb hab
+    obtain ⟨x, hx, rfl⟩ := List.mem_map.mp ha
+    obtain ⟨y, hy, rfl⟩ := List.mem_map.mp hb
+    have hx2 := (List.mem_filter.mp hx).2
+    simp only [decide_eq_true_eq] at hx2
+    apply hx2
+    rw [hab]
+    exact List.mem_map_of_mem (mem_doKill_back hy).1
+
+theorem inv_doKill (s : State) (tk : List Task) (hsub : List.Sublist tk s.roster) (h : Inv s) : Inv (doKill s tk) :=
+  inv_of_roster_mem h (fun _ ht => mem_doKill_roster hsub ht) (doKill_roster_nodup s tk hsub h.rosterNodup) rfl rfl rfl rfl
+
+theorem inv_cleanup (s : State) (h : Inv s) : Inv (cleanup s) := inv_doKill s _ List.filter_sublist h
+theorem inv_killTasks (s : State) (ids : List TaskId) (h : Inv s) : Inv (killTasks s ids) := inv_doKill s _ List.filter_sublist h
 theorem inv_cleanupTasks (s : State) (ids : List TaskId) (h : Inv s) : Inv (cleanupTasks s ids) := by
   unfold cleanupTasks; split
   · exact inv_cleanup s h
@@ -1263,6 +1318,7 @@ theorem inv_step (s : State) (st : Step) (hst : st.isClaim = false) (h : Inv s) 
     | execLost hh => exact inv_hostLost s hh false h
     | agentLost hh => exact inv_hostLost s hh true h
     | watchError k fails => exact inv_watchError s k fails h
+    | killFault ids => exact inv_congr h rfl rfl rfl rfl rfl
 
 theorem inv_run (s : State) (steps : List Step) (hs : noClaimSteps steps = true) (h : Inv s) : Inv (run s steps) := by
   induction steps generalizing s with
@@ -1506,6 +1562,7 @@ theorem killOk_step (s : State) (st : Step) (h : KillOk s) : KillOk (step s st).
       split
       · rfl
       · split <;> rfl
+    | killFault ids => exact killOk_congr h rfl
 
 theorem killOk_run (s : State) (steps : List Step) (h : KillOk s) : KillOk (run s steps) := by
   induction steps generalizing s with
@@ -1800,6 +1857,7 @@ theorem sub_step (s : State) (st : Step)
         · rename_i E _ _
           have h1 : Sub s { s with roster := s.roster.map (watchMap E fails) } := sub_of_same rfl rfl
           exact h1.trans (sub_setEnv_state _ _ _)
+    | killFault ids => exact sub_of_same rfl rfl
 
 end Own
 
@@ -2112,6 +2170,7 @@ theorem rc_step (s : State) (st : Step) (h : s.reuse = false ∨ s.cfg.unlockUnp
   | execLost h => exact ⟨rfl, rfl, rfl⟩
   | agentLost h => exact ⟨rfl, rfl, rfl⟩
   | watchError k fails => simp only [watchError]; split; exact RC.refl s; split <;> exact ⟨rfl, rfl, rfl⟩
+  | killFault ids => exact ⟨rfl, rfl, rfl⟩
 
 theorem rc_run (steps : List Step) (s : State) (h : s.reuse = false ∨ s.cfg.unlockUnpaired = false) : RC s (run s steps) := by
   induction steps generalizing s with
@@ -2630,20 +2689,63 @@ theorem env?_none_of_unlisted (s : State) (k : EnvId) (h : ∀ E ∈ s.envs, E.i
   intro E hE
   simpa using h E hE
 
+/-- What became of the master's rows after a completed teardown followed by a kill of the environment's tasks:
+    a task launched for `k` was sent a KILL, or has ended, or its KILL call failed and it sits in the roster
+    again — unlocked, ACTIVE, without a parent. -/
+def RowsAfter (s D F : State) (E : Env) : Prop :=
+  ∀ m' ∈ F.master, ∃ m ∈ s.master, m'.id = m.id ∧ m'.label = m.label ∧
+    ((m.mesos = .terminal → m'.mesos = .terminal)) ∧
+    (∀ t' ∈ D.roster, t'.id = m.id → t'.isLocked = false → t'.active = true → t'.id ∈ E.tasks →
+      m'.killed = true ∨ (t'.id ∈ D.refusing ∧ t' ∈ F.roster))
+
+/-- The fate of every task launched for `k` (see `RowsAfter`), under the hypotheses of the clean-up theorems. -/
+theorem rows_fate (s D F : State) (k : EnvId) (E : Env)
+    (hwf : envWf s k E.tasks = true) (hfaith : statusFaithful s E.tasks = true)
+    (hD1 : D.roster = s.roster.map (relAll E.tasks)) (hFm : RowsAfter s D F E) :
+    ∀ m' ∈ F.master, m'.label = k → m'.killed = true ∨ m'.mesos = .terminal ∨
+      ∃ t' ∈ F.roster, t' ∈ D.roster ∧ t'.id = m'.id ∧ t'.parent = none ∧ t'.isLocked = false ∧ t'.active = true
+        ∧ t'.id ∈ E.tasks ∧ t'.id ∈ D.refusing := by
+  simp only [envWf, Bool.and_eq_true, List.all_eq_true, Bool.or_eq_true, decide_eq_true_eq, List.any_eq_true] at hwf
+  obtain ⟨⟨⟨⟨⟨_, _⟩, hP3⟩, _⟩, _⟩, _⟩ := hwf
+  simp only [statusFaithful, List.all_eq_true, Bool.or_eq_true, decide_eq_true_eq] at hfaith
+  intro m' hm' hl
+  obtain ⟨m, hm, hid, hlab, hterm, hkill⟩ := hFm m' hm'
+  have hmk : m.label = k := by rw [← hlab]; exact hl
+  rcases hP3 m hm with h | ⟨hin, hterm0 | ⟨t, ht, hte⟩⟩
+  · exact absurd hmk h
+  · right; left; exact hterm hterm0
+  · have hte' : t.id = m.id := by simpa using hte
+    have ht' : relAll E.tasks t ∈ D.roster := by rw [hD1]; exact List.mem_map_of_mem ht
+    have hrel : relAll E.tasks t = { t with parent := none } := by simp [relAll, hte', hin]
+    by_cases ha : t.active = true
+    · have hl' : (relAll E.tasks t).isLocked = false := by rw [hrel]; simp [Task.isLocked]
+      have hin' : (relAll E.tasks t).id ∈ E.tasks := by rw [hrel]; show t.id ∈ E.tasks; rw [hte']; exact hin
+      rcases hkill (relAll E.tasks t) ht' (by rw [hrel]; exact hte') hl' (by rw [hrel]; exact ha) hin' with h | ⟨h1, h2⟩
+      · left; exact h
+      · right; right
+        exact ⟨_, h2, ht', by rw [hrel, hid]; exact hte', by rw [hrel], hl', by rw [hrel]; exact ha, hin', h1⟩
+    · right; left
+      apply hterm
+      rcases hfaith t ht with h | h
+      · rcases h with h | h
+        · exact absurd (hte' ▸ hin) h
+        · exact absurd h ha
+      · rcases h m hm with h | h
+        · exact absurd hte'.symm h
+        · exact h
+
 /-- `cleanAfter` for the state a completed teardown (plus the task cleanup, unless tasks are kept) leaves. -/
 theorem clean_core (s D F : State) (k : EnvId) (keep : Bool) (E : Env)
     (hwf : envWf s k E.tasks = true) (hfaith : statusFaithful s E.tasks = true)
-    (hD1 : D.roster = s.roster.map (relAll E.tasks)) (hD2 : D.master = s.master)
+    (hD1 : D.roster = s.roster.map (relAll E.tasks))
     (hD4 : ∀ X ∈ D.envs, X ∈ s.envs ∧ X.id ≠ k)
     (hD6 : D.dead = s.dead ++ (s.envs.filter (fun X => decide (X.id = k))).map (fun X => (X.id, X.started, X.cancelled + X.pending)))
     (hFenvs : F.envs = D.envs) (hFdead : F.dead = D.dead) (hFroster : ∀ t' ∈ F.roster, t' ∈ D.roster)
-    (hFm : keep = false → ∀ m' ∈ F.master, ∃ m ∈ s.master, m'.id = m.id ∧ m'.label = m.label ∧
-          ((m.mesos = .terminal → m'.mesos = .terminal)) ∧
-          (∀ t' ∈ D.roster, t'.id = m.id → t'.isLocked = false → t'.active = true → t'.id ∈ E.tasks → m'.killed = true)) :
+    (hFm : keep = false → RowsAfter s D F E) :
     cleanAfter k keep (viewOf F) = true := by
+  have hfate := fun hk => rows_fate s D F k E hwf hfaith hD1 (hFm hk)
   simp only [envWf, Bool.and_eq_true, List.all_eq_true, Bool.or_eq_true, decide_eq_true_eq, List.any_eq_true] at hwf
   obtain ⟨⟨⟨⟨⟨hP1, hP2⟩, hP3⟩, _⟩, hP5⟩, hP6⟩ := hwf
-  simp only [statusFaithful, List.all_eq_true, Bool.or_eq_true, decide_eq_true_eq] at hfaith
   have hDpar : ∀ t' ∈ D.roster, t'.parent ≠ some k := by
     intro t' ht'
     rw [hD1] at ht'
@@ -2664,32 +2766,12 @@ theorem clean_core (s D F : State) (k : EnvId) (keep : Bool) (E : Env)
     · left; exact hk
     · right
       intro m' hm'
-      obtain ⟨m, hm, hid, hlab, hterm, hkill⟩ := hFm (by simpa using hk) m' hm'
       by_cases hl : m'.label = k
-      · -- a task launched for k: it is one of E's tasks and has a roster entry
-        have hmk : m.label = k := by rw [← hlab]; exact hl
-        rcases hP3 m hm with h | ⟨hin, hterm0 | ⟨t, ht, hte⟩⟩
-        · exact absurd hmk h
-        · left; right; exact hterm hterm0
-        · have hte' : t.id = m.id := by simpa using hte
-          have ht' : relAll E.tasks t ∈ D.roster := by rw [hD1]; exact List.mem_map_of_mem ht
-          have hrel : relAll E.tasks t = { t with parent := none } := by simp [relAll, hte', hin]
-          by_cases ha : t.active = true
-          · left; left; right
-            apply hkill (relAll E.tasks t) ht'
-            · rw [hrel]; exact hte'
-            · rw [hrel]; simp [Task.isLocked]
-            · rw [hrel]; exact ha
-            · rw [hrel]; show t.id ∈ E.tasks; rw [hte']; exact hin
-          · left; right
-            apply hterm
-            rcases hfaith t ht with h | h
-            · rcases h with h | h
-              · exact absurd (hte' ▸ hin) h
-              · exact absurd h ha
-            · rcases h m hm with h | h
-              · exact absurd hte'.symm h
-              · exact h
+      · rcases hfate (by simpa using hk) m' hm' hl with h | h | ⟨t', ht', _, hid, hpar, _⟩
+        · left; left; right; exact h
+        · left; right; exact h
+        · right
+          exact ⟨_, ⟨t', ht', rfl⟩, by simpa using hid, by simpa using hpar⟩
       · left; left; left; exact hl
   · intro d hd
     rw [hFenvs]
@@ -2710,39 +2792,77 @@ theorem clean_core (s D F : State) (k : EnvId) (keep : Bool) (E : Env)
         · exact absurd (by simpa using hXk) h
         · exact h
 
+/-- If none of the KILL calls for the environment's tasks failed, every task launched for `k` was sent a KILL or has ended. -/
+theorem killed_core (s D F : State) (k : EnvId) (E : Env)
+    (hwf : envWf s k E.tasks = true) (hfaith : statusFaithful s E.tasks = true)
+    (hD1 : D.roster = s.roster.map (relAll E.tasks)) (hFm : RowsAfter s D F E)
+    (hno : ∀ t' ∈ D.roster, t'.isLocked = false → t'.active = true → t'.id ∈ E.tasks → t'.id ∉ D.refusing) :
+    allKilled k (viewOf F) = true := by
+  simp only [allKilled, viewOf, List.all_eq_true, List.mem_map, forall_exists_index, and_imp, forall_apply_eq_imp_iff₂,
+    Bool.or_eq_true, decide_eq_true_eq]
+  intro m' hm'
+  by_cases hl : m'.label = k
+  · rcases rows_fate s D F k E hwf hfaith hD1 hFm m' hm' hl with h | h | ⟨t', _, htD, _, _, hlk, hact, hin, href⟩
+    · left; right; exact h
+    · right; exact h
+    · exact absurd href (hno t' htD hlk hact hin)
+  · left; left; exact hl
+
+/-- The master's rows after `doKill D tk`, for a list `tk` taken from the roster. -/
+theorem doKill_master_rows (s D : State) (tk : List Task) (hD2 : D.master = s.master)
+    (P : Task → Prop) (hP : ∀ t' ∈ D.roster, t'.isLocked = false → t'.active = true → P t' → t' ∈ tk) :
+    ∀ m' ∈ (doKill D tk).master, ∃ m ∈ s.master, m'.id = m.id ∧ m'.label = m.label ∧
+      ((m.mesos = .terminal → m'.mesos = .terminal)) ∧
+      (∀ t' ∈ D.roster, t'.id = m.id → t'.isLocked = false → t'.active = true → P t' →
+        m'.killed = true ∨ (t'.id ∈ D.refusing ∧ t' ∈ (doKill D tk).roster)) := by
+  intro m' hm'
+  simp only [doKill, killMany, List.mem_map, hD2] at hm'
+  obtain ⟨m, hm, rfl⟩ := hm'
+  refine ⟨m, hm, ?_, ?_, ?_, ?_⟩
+  · split <;> rfl
+  · split <;> rfl
+  · intro h; split <;> simp [h]
+  · intro t' ht' hid hl ha hp
+    have htk := hP t' ht' hl ha hp
+    by_cases href : t'.id ∈ D.refusing
+    · right
+      refine ⟨href, ?_⟩
+      rw [doKill_roster]
+      exact List.mem_append.mpr (Or.inr (List.mem_filter.mpr ⟨List.mem_filter.mpr ⟨htk, ha⟩, by simpa using href⟩))
+    · left
+      have : m.id ∈ List.map (fun x => x.id) (List.filter (fun t => decide (t.id ∉ D.refusing)) (List.filter (fun x => x.active) tk)) :=
+        List.mem_map.mpr ⟨t', List.mem_filter.mpr ⟨List.mem_filter.mpr ⟨htk, ha⟩, by simpa using href⟩, hid⟩
+      rw [if_pos (by simpa [List.mem_map] using this)]
+
 /-- The master's rows after `killTasks D ids`. -/
 theorem killTasks_master_rows (s D : State) (ids : List TaskId) (hD2 : D.master = s.master) :
     ∀ m' ∈ (killTasks D ids).master, ∃ m ∈ s.master, m'.id = m.id ∧ m'.label = m.label ∧
       ((m.mesos = .terminal → m'.mesos = .terminal)) ∧
-      (∀ t' ∈ D.roster, t'.id = m.id → t'.isLocked = false → t'.active = true → t'.id ∈ ids → m'.killed = true) := by
-  intro m' hm'
-  simp only [killTasks, doKill, killMany, List.mem_map, hD2] at hm'
-  obtain ⟨m, hm, rfl⟩ := hm'
-  refine ⟨m, hm, ?_, ?_, ?_, ?_⟩
-  · split <;> rfl
-  · split <;> rfl
-  · intro h; split <;> simp [h]
-  · intro t' ht' hid hl ha hin'
-    have : m.id ∈ List.map (fun x => x.id) (List.filter (fun x => x.active)
-        (List.filter (fun t => !t.isLocked && decide (t.id ∈ ids)) D.roster)) :=
-      List.mem_map.mpr ⟨t', List.mem_filter.mpr ⟨List.mem_filter.mpr ⟨ht', by simp [hl, hin']⟩, ha⟩, hid⟩
-    rw [if_pos (by simpa [List.mem_map] using this)]
+      (∀ t' ∈ D.roster, t'.id = m.id → t'.isLocked = false → t'.active = true → t'.id ∈ ids →
+        m'.killed = true ∨ (t'.id ∈ D.refusing ∧ t' ∈ (killTasks D ids).roster)) :=
+  doKill_master_rows s D _ hD2 (fun t => t.id ∈ ids)
+    (fun t' ht' hl _ hin => List.mem_filter.mpr ⟨ht', by simp [hl, hin]⟩)
 
 theorem cleanup_master_rows (s D : State) (ids : List TaskId) (hD2 : D.master = s.master) :
     ∀ m' ∈ (cleanup D).master, ∃ m ∈ s.master, m'.id = m.id ∧ m'.label = m.label ∧
       ((m.mesos = .terminal → m'.mesos = .terminal)) ∧
-      (∀ t' ∈ D.roster, t'.id = m.id → t'.isLocked = false → t'.active = true → t'.id ∈ ids → m'.killed = true) := by
-  intro m' hm'
-  simp only [cleanup, doKill, killMany, List.mem_map, hD2] at hm'
-  obtain ⟨m, hm, rfl⟩ := hm'
-  refine ⟨m, hm, ?_, ?_, ?_, ?_⟩
-  · split <;> rfl
-  · split <;> rfl
-  · intro h; split <;> simp [h]
-  · intro t' ht' hid hl ha _
-    have : m.id ∈ List.map (fun x => x.id) (List.filter (fun x => x.active) (List.filter (fun t => !t.isLocked) D.roster)) :=
-      List.mem_map.mpr ⟨t', List.mem_filter.mpr ⟨List.mem_filter.mpr ⟨ht', by simp [hl]⟩, ha⟩, hid⟩
-    rw [if_pos (by simpa [List.mem_map] using this)]
+      (∀ t' ∈ D.roster, t'.id = m.id → t'.isLocked = false → t'.active = true → t'.id ∈ ids →
+        m'.killed = true ∨ (t'.id ∈ D.refusing ∧ t' ∈ (cleanup D).roster)) :=
+  doKill_master_rows s D _ hD2 (fun t => t.id ∈ ids)
+    (fun t' ht' hl _ _ => List.mem_filter.mpr ⟨ht', by simp [hl]⟩)
+
+theorem mem_cleanupTasks_roster {D : State} {ids : List TaskId} {t' : Task} (ht' : t' ∈ (cleanupTasks D ids).roster) :
+    t' ∈ D.roster := by
+  unfold cleanupTasks at ht'
+  split at ht'
+  · exact mem_doKill_roster List.filter_sublist ht'
+  · exact mem_doKill_roster List.filter_sublist ht'
+
+theorem cleanupTasks_rows (s D : State) (E : Env) (hD2 : D.master = s.master) : RowsAfter s D (cleanupTasks D E.tasks) E := by
+  unfold cleanupTasks
+  split
+  · exact cleanup_master_rows s D E.tasks hD2
+  · exact killTasks_master_rows s D E.tasks hD2
 
 theorem clean_of_done (s D : State) (k : EnvId) (keep : Bool) (E : Env)
     (hwf : envWf s k E.tasks = true) (hfaith : statusFaithful s E.tasks = true)
@@ -2750,7 +2870,7 @@ theorem clean_of_done (s D : State) (k : EnvId) (keep : Bool) (E : Env)
     (hD4 : ∀ X ∈ D.envs, X ∈ s.envs ∧ X.id ≠ k)
     (hD6 : D.dead = s.dead ++ (s.envs.filter (fun X => decide (X.id = k))).map (fun X => (X.id, X.started, X.cancelled + X.pending))) :
     cleanAfter k keep (viewOf (if keep then D else cleanupTasks D E.tasks)) = true := by
-  apply clean_core s D _ k keep E hwf hfaith hD1 hD2 hD4 hD6
+  apply clean_core s D _ k keep E hwf hfaith hD1 hD4 hD6
   · split
     · rfl
     · exact cleanupTasks_envs _ _
@@ -2760,26 +2880,42 @@ theorem clean_of_done (s D : State) (k : EnvId) (keep : Bool) (E : Env)
   · intro t' ht'
     split at ht'
     · exact ht'
-    · unfold cleanupTasks at ht'
-      split at ht' <;> exact (List.mem_filter.mp ht').1
+    · exact mem_cleanupTasks_roster ht'
   · intro hk
     simp only [hk, Bool.false_eq_true, if_false]
-    unfold cleanupTasks
-    split
-    · exact cleanup_master_rows s D E.tasks hD2
-    · exact killTasks_master_rows s D E.tasks hD2
+    exact cleanupTasks_rows s D E hD2
 
-/-- The same with KillTasks on the environment's tasks as the last step (the failure tail of a creation). -/
+/-- The clean-up after a completed teardown reported no error: every task launched for `k` was sent a KILL or has ended. -/
+theorem killed_of_done (s D : State) (k : EnvId) (E : Env)
+    (hwf : envWf s k E.tasks = true) (hfaith : statusFaithful s E.tasks = true)
+    (hD1 : D.roster = s.roster.map (relAll E.tasks)) (hD2 : D.master = s.master)
+    (hne : cleanupTasksErr D E.tasks = false) :
+    allKilled k (viewOf (cleanupTasks D E.tasks)) = true := by
+  apply killed_core s D _ k E hwf hfaith hD1 (cleanupTasks_rows s D E hD2)
+  intro t' ht' hl ha hin href
+  unfold cleanupTasksErr at hne
+  split at hne
+  · have : cleanupErr D = true := by
+      simp only [cleanupErr, killErr, List.any_eq_true, Bool.and_eq_true, decide_eq_true_eq]
+      exact ⟨t', List.mem_filter.mpr ⟨ht', by simp [hl]⟩, ha, href⟩
+    rw [this] at hne; exact absurd hne (by simp)
+  · have : killTasksErr D E.tasks = true := by
+      simp only [killTasksErr, killErr, List.any_eq_true, Bool.and_eq_true, decide_eq_true_eq]
+      exact ⟨t', List.mem_filter.mpr ⟨ht', by simp [hl, hin]⟩, ha, href⟩
+    rw [this] at hne; exact absurd hne (by simp)
+
+/-- The same with KillTasks on the environment's tasks as the last step (the failure tail of a creation):
+    a task whose KILL call failed sits unowned in the roster afterwards. -/
 theorem clean_of_done_kill (s D : State) (k : EnvId) (E : Env)
     (hwf : envWf s k E.tasks = true) (hfaith : statusFaithful s E.tasks = true)
     (hD1 : D.roster = s.roster.map (relAll E.tasks)) (hD2 : D.master = s.master)
     (hD4 : ∀ X ∈ D.envs, X ∈ s.envs ∧ X.id ≠ k)
     (hD6 : D.dead = s.dead ++ (s.envs.filter (fun X => decide (X.id = k))).map (fun X => (X.id, X.started, X.cancelled + X.pending))) :
     cleanAfter k false (viewOf (killTasks D E.tasks)) = true := by
-  apply clean_core s D _ k false E hwf hfaith hD1 hD2 hD4 hD6
+  apply clean_core s D _ k false E hwf hfaith hD1 hD4 hD6
   · rfl
   · rfl
-  · intro t' ht'; exact (List.mem_filter.mp ht').1
+  · intro t' ht'; exact mem_doKill_roster List.filter_sublist ht'
   · intro _; exact killTasks_master_rows s D E.tasks hD2
 
 end Own
@@ -2790,31 +2926,51 @@ theorem teardown_notfound (s : State) (k : EnvId) (f l : Bool) (hf : List TaskId
     (teardown s k f l hf).2.1 = .notfound := by
   unfold teardown; rw [h]
 
-/-- doTeardownAndCleanup answering success leaves the environment clean, under the hypotheses. -/
+theorem destroyedClean_clean {k : EnvId} {keep : Bool} {v : View} (h : destroyedClean k keep v = true) :
+    cleanAfter k keep v = true := by
+  simp only [destroyedClean, Bool.and_eq_true] at h; exact h.1
+
+theorem destroyedClean_killed {k : EnvId} {v : View} (h : destroyedClean k false v = true) : allKilled k v = true := by
+  simp only [destroyedClean, Bool.and_eq_true, Bool.false_or] at h; exact h.2
+
+/-- doTeardownAndCleanup answering success leaves the environment clean — and every one of its tasks killed,
+    unless they were to be kept —, under the hypotheses. -/
 theorem tac_clean (s : State) (k : EnvId) (force keep : Bool) (o : DOracle) (E : Env)
     (hE : s.env? k = some E) (hwf : envWf s k E.tasks = true) (hfaith : statusFaithful s E.tasks = true)
     (hrel : hooksOk s E.hooks = true) (hhk : ∀ h ∈ E.hooks, h.task ∈ E.tasks)
     (hok : (teardownAndCleanup s k E.tasks force keep o).2.1 = .ok) :
-    cleanAfter k keep (viewOf (teardownAndCleanup s k E.tasks force keep o).1) = true := by
+    destroyedClean k keep (viewOf (teardownAndCleanup s k E.tasks force keep o).1) = true := by
   have hwf' : ∀ E', s.env? k = some E' → envWf s k E'.tasks = true ∧ (∀ h ∈ E'.hooks, h.task ∈ E'.tasks) := by
     intro E' hE'; rw [hE] at hE'; injection hE' with hE'; subst hE'; exact ⟨hwf, hhk⟩
   -- the state of a completed teardown gives the claim
   have fin : ∀ (f l : Bool) (tr : List TEv), (teardown s k f l o.hookFails).2.1 = .ok →
-      cleanAfter k keep (viewOf (tcFin keep E.tasks (teardown s k f l o.hookFails).1 .ok tr).1) = true := by
-    intro f l tr hdone
+      (tcFin keep E.tasks (teardown s k f l o.hookFails).1 .ok tr).2.1 = .ok →
+      destroyedClean k keep (viewOf (tcFin keep E.tasks (teardown s k f l o.hookFails).1 .ok tr).1) = true := by
+    intro f l tr hdone hres
     obtain ⟨a1, a2, _, a4, _, a6⟩ := teardown_done_state s k f l o.hookFails E hE hwf hrel hhk (Or.inl hdone)
-    have := clean_of_done s _ k keep E hwf hfaith a1 a2 a4 a6
+    have hc := clean_of_done s _ k keep E hwf hfaith a1 a2 a4 a6
+    simp only [destroyedClean, Bool.and_eq_true, Bool.or_eq_true]
+    revert hres
     simp only [tcFin]
     split
-    · rename_i hk; simpa [hk] using this
-    · rename_i hk; simpa [hk] using this
+    · rename_i hk
+      intro _
+      exact ⟨by simpa [hk] using hc, Or.inl hk⟩
+    · rename_i hk
+      intro hres
+      refine ⟨by simpa [hk] using hc, Or.inr ?_⟩
+      have hne : cleanupTasksErr (teardown s k f l o.hookFails).1 E.tasks = false := by
+        cases he : cleanupTasksErr (teardown s k f l o.hookFails).1 E.tasks
+        · rfl
+        · simp [he] at hres
+      exact killed_of_done s _ k E hwf hfaith a1 a2 hne
   revert hok
   unfold teardownAndCleanup
   simp only []
   split
   · intro hok
     obtain ⟨a, _⟩ := tcFin_ok _ _ _ _ _ hok
-    rw [a]; exact fin _ _ _ a
+    rw [a] at hok ⊢; exact fin _ _ _ a hok
   · rename_i hcase
     intro hok
     obtain ⟨a, _⟩ := tcFin_ok _ _ _ _ _ hok
@@ -2824,11 +2980,11 @@ theorem tac_clean (s : State) (k : EnvId) (force keep : Bool) (o : DOracle) (E :
       cases hr : (teardown s k force o.late1 o.hookFails).2.1 <;> simp_all
     rcases h1 with h1 | h1 | h1
     · have hs := teardown_err_unchanged s k force o.late1 o.hookFails hwf' (Or.inl h1)
-      rw [hs] at a ⊢
-      rw [a]; exact fin _ _ _ a
+      rw [hs] at a hok ⊢
+      rw [a] at hok ⊢; exact fin _ _ _ a hok
     · have hs := teardown_err_unchanged s k force o.late1 o.hookFails hwf' (Or.inr h1)
-      rw [hs] at a ⊢
-      rw [a]; exact fin _ _ _ a
+      rw [hs] at a hok ⊢
+      rw [a] at hok ⊢; exact fin _ _ _ a hok
     · -- the environment is gone: the retry answers "not found"
       have hnone := env?_none_of_unlisted _ k (teardown_done_unlisted s k force o.late1 o.hookFails (Or.inr h1))
       have : (teardown (teardown s k force o.late1 o.hookFails).1 k true o.late2 o.hookFails).2.1 = .notfound :=
@@ -2852,7 +3008,7 @@ theorem tac_clean_same (s s1 : State) (hso : SameOwn s s1) (k : EnvId) (force ke
     (hE : s.env? k = some E) (hwf : envWf s k E.tasks = true) (hfaith : statusFaithful s E.tasks = true)
     (hrel : hooksOk s E.hooks = true) (hhk : ∀ h ∈ E.hooks, h.task ∈ E.tasks)
     (hok : (teardownAndCleanup s1 k E.tasks force keep o).2.1 = .ok) :
-    cleanAfter k keep (viewOf (teardownAndCleanup s1 k E.tasks force keep o).1) = true := by
+    destroyedClean k keep (viewOf (teardownAndCleanup s1 k E.tasks force keep o).1) = true := by
   obtain ⟨E1, hE1, _, ht, hh, _⟩ := env?_sameOwn hso k E hE
   obtain ⟨t1, t2, t3⟩ := hyps_transfer hso k E.tasks E.hooks
   rw [← ht] at hok ⊢
@@ -2864,8 +3020,8 @@ theorem destroyRest_clean (s s1 : State) (hso : SameOwn s s1) (st : EState) (sto
     (hE : s.env? k = some E) (hwf : envWf s k E.tasks = true) (hfaith : statusFaithful s E.tasks = true)
     (hrel : hooksOk s E.hooks = true) (hhk : ∀ h ∈ E.hooks, h.task ∈ E.tasks) :
     (destroyRest s1 st stopOk k E keep o).2.1 = .ok →
-    cleanAfter k keep (viewOf (destroyRest s1 st stopOk k E keep o).1) = true ∨
-    cleanAfter k false (viewOf (destroyRest s1 st stopOk k E keep o).1) = true := by
+    destroyedClean k keep (viewOf (destroyRest s1 st stopOk k E keep o).1) = true ∨
+    destroyedClean k false (viewOf (destroyRest s1 st stopOk k E keep o).1) = true := by
   unfold destroyRest
   split
   · intro h; right; exact tac_clean_same s s1 hso k true false o E hE hwf hfaith hrel hhk h
@@ -2884,11 +3040,16 @@ theorem cleanAfter_keep_of_kill (k : EnvId) (v : View) (h : cleanAfter k false v
   simp only [cleanAfter, Bool.and_eq_true, Bool.or_eq_true, Bool.false_eq_true, false_or, true_or, and_true] at h ⊢
   exact ⟨⟨⟨h.1.1.1.1, h.1.1.1.2⟩, h.1.2⟩, h.2⟩
 
+/-- … and so does the stronger obligation of a destroy that answered success. -/
+theorem destroyedClean_keep_of_kill (k : EnvId) (v : View) (h : destroyedClean k false v = true) : destroyedClean k true v = true := by
+  simp only [destroyedClean, Bool.and_eq_true, Bool.true_or, and_true]
+  exact cleanAfter_keep_of_kill k v (destroyedClean_clean h)
+
 theorem destroy_clean (s : State) (k : EnvId) (force allow keep : Bool) (o : DOracle) (E : Env)
     (hE : s.env? k = some E) (hwf : envWf s k E.tasks = true) (hfaith : statusFaithful s E.tasks = true)
     (hrel : hooksOk s E.hooks = true) (hhk : ∀ h ∈ E.hooks, h.task ∈ E.tasks)
     (hok : (destroy s k force allow keep o).2.1 = .ok) :
-    cleanAfter k keep (viewOf (destroy s k force allow keep o).1) = true := by
+    destroyedClean k keep (viewOf (destroy s k force allow keep o).1) = true := by
   revert hok
   unfold destroy
   split
@@ -2904,7 +3065,7 @@ theorem destroy_clean (s : State) (k : EnvId) (force allow keep : Bool) (o : DOr
     · exact h1
     · cases keep
       · exact h1
-      · exact cleanAfter_keep_of_kill k _ h1
+      · exact destroyedClean_keep_of_kill k _ h1
 
 /-- A forced teardown of a listed, not torn, not DONE environment never answers "error" or
     "not found" when the bookkeeping is well-formed: it completes or hangs. -/
@@ -3263,7 +3424,7 @@ theorem destroy_after_loss_clean (s : State) (steps : List Step) (hl : steps.all
     (hfaith : statusFaithful s E.tasks = true) (hhk : ∀ h ∈ E.hooks, h.task ∈ E.tasks)
     (hrel : hooksOk (run s steps) E.hooks = true)
     (hok : (destroy (run s steps) k force allow keep o).2.1 = .ok) :
-    cleanAfter k keep (viewOf (destroy (run s steps) k force allow keep o).1) = true := by
+    destroyedClean k keep (viewOf (destroy (run s steps) k force allow keep o).1) = true := by
   have hk := lossKeeps_run steps hl s k E.tasks E.hooks ⟨⟨E, hE, rfl, rfl, hte⟩, hwf, hag, hfaith⟩
   obtain ⟨E', hE', a, b, _⟩ := hk.listed
   exact destroy_clean _ k force allow keep o E' hE' (by rw [a]; exact hk.wf) (by rw [a]; exact hk.faithful)
@@ -3282,5 +3443,124 @@ theorem createFail_after_loss_clean (s : State) (steps : List Step) (hl : steps.
   rw [← a] at hnh ⊢
   exact createFail_clean _ k late res hf E' hE' c (by rw [a]; exact hk.wf) (by rw [a, b]; exact hhk)
     (by rw [b]; exact hrel) (by rw [a]; exact hk.faithful) hnh
+
+end Own
+
+namespace Own
+
+/-! ### C04: a creation leaves the records of the other environments alone -/
+
+/-- Every listed environment other than `k` is listed afterwards, the very same record. -/
+def KeepsOthers (k : EnvId) (s s' : State) : Prop := ∀ E ∈ s.envs, E.id ≠ k → E ∈ s'.envs
+
+theorem KeepsOthers.refl (k : EnvId) (s : State) : KeepsOthers k s s := fun _ hE _ => hE
+
+theorem KeepsOthers.trans {k : EnvId} {a b c : State} (h1 : KeepsOthers k a b) (h2 : KeepsOthers k b c) : KeepsOthers k a c :=
+  fun E hE hne => h2 E (h1 E hE hne) hne
+
+theorem KeepsOthers.of_envs {k : EnvId} {s s' : State} (h : s'.envs = s.envs) : KeepsOthers k s s' :=
+  fun _ hE _ => h ▸ hE
+
+theorem keepsOthers_setEnv (s : State) (k : EnvId) (f : Env → Env) : KeepsOthers k s (setEnv s k f) := by
+  intro E hE hne
+  simp only [setEnv, List.mem_map]
+  exact ⟨E, hE, by simp [hne]⟩
+
+theorem keepsOthers_tdFinish (s1 : State) (k : EnvId) (E : Env) (late : Bool) (hf : List TaskId) :
+    KeepsOthers k s1 (tdFinish s1 k E late hf).1 := by
+  have h2 : KeepsOthers k s1 (tdCancel s1 k E) := keepsOthers_setEnv _ _ _
+  unfold tdFinish
+  simp only []
+  split
+  · exact h2.trans (keepsOthers_setEnv _ _ _)
+  · have h3 : KeepsOthers k (tdCancel s1 k E) (releaseTasks (tdCancel s1 k E) k (tdMsg s1 E)).1 := KeepsOthers.of_envs rfl
+    split
+    · exact h2.trans h3
+    · refine (h2.trans h3).trans ?_
+      intro X hX hne
+      exact List.mem_filter.mpr ⟨hX, by simpa using hne⟩
+
+theorem keepsOthers_teardown (s : State) (k : EnvId) (force late : Bool) (hf : List TaskId) :
+    KeepsOthers k s (teardown s k force late hf).1 := by
+  unfold teardown
+  split
+  · exact KeepsOthers.refl k s
+  · split
+    · exact KeepsOthers.refl k s
+    split
+    · exact KeepsOthers.refl k s
+    split
+    · exact KeepsOthers.refl k s
+    simp only []
+    have h1 : ∀ ids, KeepsOthers k s (releaseTasks s k ids).1 := fun _ => KeepsOthers.of_envs rfl
+    split
+    · exact h1 _
+    · exact (h1 _).trans (keepsOthers_tdFinish _ _ _ _ _)
+
+theorem keepsOthers_createFail (s : State) (k : EnvId) (ids : List TaskId) (late : Bool) (res : Res) (hf : List TaskId) :
+    KeepsOthers k s (createFail s k ids late res hf).1 := by
+  have h1 : KeepsOthers k s (teardown (setEnv s k (fun X => { X with state := .ERROR })) k true late hf).1 :=
+    (keepsOthers_setEnv _ _ _).trans (keepsOthers_teardown _ _ _ _ _)
+  unfold createFail
+  simp only []
+  split
+  · exact h1
+  · exact h1.trans (KeepsOthers.of_envs rfl)
+
+theorem lostAll_envs (s : State) (ls : List (Host × Bool)) : (lostAll s ls).envs = s.envs := by
+  induction ls generalizing s with
+  | nil => rfl
+  | cons l rest ih => rw [lostAll_cons, ih]; rfl
+
+theorem keepsOthers_createConfigure (s : State) (k : EnvId) (spec : EnvSpec) (a : Acq) (o : SettleOracle) :
+    KeepsOthers k s (createConfigure s k spec a o).1 := by
+  unfold createConfigure
+  split
+  · exact KeepsOthers.refl k s
+  · rename_i E _
+    simp only []
+    have h3 : KeepsOthers k s (lostAll (setEnv (applyTrans s { E with state := .DEPLOYED } .CONFIGURE
+          (o.cfgFails.filterMap (fun f => (a.idOf f.1).map (fun t => (t, f.2))))).1 k
+        (fun X => { X with pending := X.pending + callCount spec, started := X.started + callCount spec })) o.lost) := by
+      have a1 : KeepsOthers k s (applyTrans s { E with state := .DEPLOYED } .CONFIGURE
+          (o.cfgFails.filterMap (fun f => (a.idOf f.1).map (fun t => (t, f.2))))).1 := KeepsOthers.of_envs rfl
+      exact (a1.trans (keepsOthers_setEnv _ _ _)).trans (KeepsOthers.of_envs (lostAll_envs _ _))
+    split
+    · exact h3.trans (keepsOthers_setEnv _ _ _)
+    · exact h3.trans (keepsOthers_createFail _ _ _ _ _ _)
+
+theorem keepsOthers_acquire (s : State) (k : EnvId) (spec : EnvSpec) (claims : List (Nat × TaskId)) (o : SettleOracle) :
+    KeepsOthers k s (acquire s k spec claims o).s := by
+  unfold acquire
+  simp only []
+  exact (KeepsOthers.of_envs (k := k) (s := s) rfl).trans (keepsOthers_setEnv _ _ _)
+
+/-- DEPLOY, CONFIGURE and the failure tail of the creation of `k` leave every other listed environment's record as it is. -/
+theorem keepsOthers_createSettle (s : State) (k : EnvId) (o : SettleOracle) : KeepsOthers k s (createSettle s k o).1 := by
+  unfold createSettle
+  split
+  · exact KeepsOthers.refl k s
+  · rename_i p _
+    have hd : KeepsOthers k s (dropPending s k) := KeepsOthers.of_envs rfl
+    simp only []
+    split
+    · exact hd.trans (keepsOthers_createFail _ _ _ _ _ _)
+    · split
+      · exact hd.trans (KeepsOthers.of_envs rfl)
+      · have ha := hd.trans (keepsOthers_acquire (dropPending s k) k p.spec (claimsOf (dropPending s k) p) o)
+        split
+        · exact ha.trans (keepsOthers_createFail _ _ _ _ _ _)
+        · exact ha.trans (keepsOthers_createConfigure _ _ _ _ _)
+
+/-- **What the settling of a creation — successful or failed, with or without reuse of unlocked tasks — does to
+    the tasks of the other environments: nothing.** In a state of a run (`Inv`), a roster task that a live
+    environment `E` other than `k` references is owned by `E` before and — if it is still in the roster, and it is:
+    `killTasks` only takes unlocked tasks — after. -/
+theorem createSettle_spares_foreign (s : State) (k : EnvId) (o : SettleOracle) (h : Inv s)
+    (E : Env) (hE : E ∈ s.envs) (hne : E.id ≠ k) (hte : E.tearing = false) :
+    (∀ t ∈ s.roster, t.id ∈ E.tasks → t.parent = some E.id) ∧
+    (∀ t' ∈ (createSettle s k o).1.roster, t'.id ∈ E.tasks → t'.parent = some E.id) :=
+  ⟨fun t ht hin => h.owned E hE hte t ht hin,
+   fun t' ht' hin => (inv_createSettle s k o h).owned E (keepsOthers_createSettle s k o E hE hne) hte t' ht' hin⟩
 
 end Own
